@@ -146,8 +146,10 @@ type Summary struct {
 	ReplayPath []string          `json:"replay_paths"`
 	KnownHits  map[string]int    `json:"known_hits"` // index in known list -> count
 	KnownEx    map[string]string `json:"known_examples"`
-	Trouble    []string          `json:"trouble"`              // harness problems (exit 2)
-	LogHashes  map[string]string `json:"log_hashes,omitempty"` // seed -> hash (determinism self-test)
+	Trouble    []string          `json:"trouble"` // harness problems (exit 2)
+	// failures that did not replay (e.g. a dangling view of recycled memory read differently); exit 2 unless a replayable violation was found as well
+	Unreplayable []string          `json:"unreplayable"`
+	LogHashes    map[string]string `json:"log_hashes,omitempty"` // seed -> hash (determinism self-test)
 }
 
 func envInt(name string, def int) int {
@@ -385,9 +387,12 @@ func WorkerMain(t *testing.T) {
 			if seenOracle[f.Oracle] || len(sum.Violations) >= 4 {
 				continue
 			}
-			seenOracle[f.Oracle] = true
 			rep := e.makeReplay(t, seed, tape.Rec, f, sum)
+			if rep == nil && len(sum.Unreplayable) > 12 {
+				seenOracle[f.Oracle] = true // enough attempts for this one
+			}
 			if rep != nil {
+				seenOracle[f.Oracle] = true
 				path := fmt.Sprintf("%s/%s-%s-%d.json", replayDir, e.Property, sanitize(f.Oracle), seed)
 				if replayDir != "" {
 					b, _ := json.MarshalIndent(rep, "", " ")
@@ -461,7 +466,9 @@ func (e *Engine) makeReplay(t *testing.T, seed uint64, rec []uint32, f simrt.Fai
 			_ = os.WriteFile(d+"/nondet-a.log", []byte(strings.Join(a.Log, "\n")), 0o644)
 			_ = os.WriteFile(d+"/nondet-b.log", []byte(strings.Join(b.Log, "\n")), 0o644)
 		}
-		sum.Trouble = append(sum.Trouble, fmt.Sprintf("seed %d: failure %s does not replay deterministically (hashes %x %x, reproduced=%v)", seed, f.Oracle, a.LogHash(), b.LogHash(), ok))
+		// not reported (a violation that does not replay is never printed); the search goes on, and only if
+		// nothing replayable turns up does the check end as "trouble"
+		sum.Unreplayable = append(sum.Unreplayable, fmt.Sprintf("seed %d: failure %s does not replay deterministically (hashes %x %x, reproduced=%v)", seed, f.Oracle, a.LogHash(), b.LogHash(), ok))
 		return nil
 	}
 	return &Replay{
